@@ -139,6 +139,8 @@ class Verifier(Engine):
                 return self.re_match(st, fv.pat, args)
             if k == 're_group':
                 return self.re_group(st, fv.m, args)
+            if k in ('re_end', 're_start'):
+                return self.re_pos(st, fv.m, args, k[3:])
             if k == 'constdict_get':
                 # <constant dict>.get(key, default) with a symbolic key: one of the values or the default -- which one is
                 # left open (sound over-approximation); only class-valued dicts are supported
